@@ -59,37 +59,119 @@ def run(repo: Repo, chk: Check):
     chk.saw("compile_pass", hn.qual)
     hcfg, hrd = fn_ctx(hn)
     wh = f"{cp.path}:{hn.lineno} in {hn.qual}"
-    sets = [c for c in ast.walk(hn) if isinstance(c, ast.Call) and isinstance(c.func, ast.Attribute) and c.func.attr == "set_constant"]
+    from .c15 import symbolic_path, _subst
+    sets = [c for c in ast.walk(hn) if isinstance(c, ast.Call) and isinstance(c.func, ast.Attribute) and c.func.attr == "set_constant" and c.args]
     found = False
+
+    def first_component(e):
+        """get_scope_name(<node>).split('.')[0]  /  .partition('.')[0]"""
+        if isinstance(e, ast.Subscript) and isinstance(e.slice, ast.Constant) and e.slice.value == 0 and isinstance(e.value, ast.Call) \
+                and isinstance(e.value.func, ast.Attribute) and e.value.func.attr in ("split", "partition") and e.value.args \
+                and isinstance(e.value.args[0], ast.Constant) and e.value.args[0].value == "." \
+                and isinstance(e.value.func.value, ast.Call) and norm(e.value.func.value.func) == "get_scope_name":
+            return True
+        return False
+
+    FALSY = ("", False, 0, None)
+
+    def ev(e, empty):
+        """Possible values of a __name__ expression when the module component is empty (main file) / not:
+        a set over {'MOD', constants}, or None when the expression is not understood."""
+        if first_component(e):
+            return {""} if empty else {"MOD"}
+        if isinstance(e, ast.Constant):
+            return {e.value}
+        if isinstance(e, ast.IfExp):
+            t = ev(e.test, empty)
+            if t is None:
+                return None
+            out = set()
+            for tv in t:
+                r = ev(e.body if tv not in FALSY else e.orelse, empty)
+                if r is None:
+                    return None
+                out |= r
+            return out
+        if isinstance(e, ast.BoolOp) and isinstance(e.op, (ast.Or, ast.And)):
+            is_or = isinstance(e.op, ast.Or)
+            cur = None
+            for v in e.values:
+                r = ev(v, empty)
+                if r is None:
+                    return None
+                if cur is None:
+                    cur = r
+                else:
+                    cont = {x for x in cur if (x in FALSY) == is_or}   # values that let evaluation continue
+                    cur = (cur - cont) | (r if cont else set())
+            return cur
+        if isinstance(e, ast.UnaryOp) and isinstance(e.op, ast.Not):
+            r = ev(e.operand, empty)
+            return None if r is None else {x in FALSY for x in r}
+        if isinstance(e, ast.Compare) and len(e.ops) == 1 and isinstance(e.ops[0], (ast.Eq, ast.NotEq)):
+            l, r = ev(e.left, empty), ev(e.comparators[0], empty)
+            if l is None or r is None:
+                return None
+            out = set()
+            for x in l:
+                for y in r:
+                    if x == "MOD" and y == "MOD":
+                        eqs = {True}
+                    elif "MOD" in (x, y):
+                        other = y if x == "MOD" else x
+                        eqs = {False} if other in FALSY or not isinstance(other, str) else {True, False}   # some module may carry that name
+                    else:
+                        eqs = {x == y}
+                    out |= eqs if isinstance(e.ops[0], ast.Eq) else {not q for q in eqs}
+            return out
+        return None
+
+    def state_attribute(val, c):
+        """The folded value is pass-level state (self.<attr>) and not a function of the node: every run() of a pass that inherits this
+        handler has to maintain it, otherwise that pass folds __name__ to a stale value."""
+        if not (isinstance(val, ast.Attribute) and isinstance(val.value, ast.Name) and val.value.id == "self"):
+            return False
+        attr = val.attr
+        cls = cp.classes.get(hn.qual.split(".")[0])
+        users = [(m, k) for m, k in repo.subclasses(cls.name)
+                 if (repo.method(m, k, "handle_name") or (None, None))[1] is hn]
+        missing = []
+        for m, k in users:
+            got = repo.method(m, k, "run")
+            if not got:
+                continue
+            sets_it = any(isinstance(t, ast.Attribute) and t.attr == attr and isinstance(t.value, ast.Name) and t.value.id == "self" and isinstance(t.ctx, ast.Store)
+                          for t in ast.walk(got[1]))
+            if not sets_it:
+                missing.append(f"{k.name} (run is {got[1].qual})")
+        if missing:
+            chk.bad("R13.b", "compile_pass:handle_name:__name__ is the first component of the qualified scope name",
+                    f"__name__ is folded to the pass attribute self.{attr}, which does not depend on the node; the run() of {', '.join(missing)} never assigns it, "
+                    f"so in that pass a library's __name__ folds to whatever the attribute last held (its class default)", {"attribute": attr, "passes": missing}, wh)
+            return True
+        raise AnalysisError(f"handle_name: __name__ is folded to the pass attribute self.{attr}; every run() assigns it, but the assigned values are outside what this rule can follow")
+
     for c in sets:
-        ids = live_ids(hcfg, c)
-        atoms = guard_atoms(hcfg, ids[0]) if ids else []
-        if not any(p and isinstance(t, ast.Compare) and any(isinstance(k, ast.Constant) and k.value == "__name__" for k in t.comparators) for t, p in atoms):
+        env, conds = symbolic_path(hn, c)
+        is_name = False
+        for t, p in conds:
+            if isinstance(t, ast.Compare) and len(t.ops) == 1 and any(isinstance(k, ast.Constant) and k.value == "__name__" for k in t.comparators):
+                is_name = isinstance(t.ops[0], ast.Eq) == p
+        if not is_name:
             continue
         found = True
-        arg = c.args[0]
-        vals = []
-        if isinstance(arg, ast.Name):
-            for d in hrd.at(ids[0], arg.id):
-                vals.append((d, [(norm(t), p) for t, p in guard_atoms(hcfg, d.node)]))
-        main_ok, mod_ok, other = False, False, []
-        for d, gs in vals:
-            v = d.value
-            if isinstance(v, ast.Constant) and v.value == "__main__":
-                main_ok = any(p and t.replace('"', "'") == f"{arg.id} == ''" for t, p in gs)
-            elif isinstance(v, ast.Subscript) and isinstance(v.slice, ast.Constant) and v.slice.value == 0 and isinstance(v.value, ast.Call) and norm(v.value.func).endswith(".split") \
-                    and v.value.args and isinstance(v.value.args[0], ast.Constant) and v.value.args[0].value == ".":
-                src = v.value.func.value
-                sd = hrd.at(d.node, src.id) if isinstance(src, ast.Name) else []
-                mod_ok = bool(sd) and all(x.kind == "assign" and isinstance(x.value, ast.Call) and norm(x.value.func) == "get_scope_name" for x in sd)
-            else:
-                other.append(norm(v) if v is not None else d.kind)
-        chk.judge("R13.b", "compile_pass:handle_name:__name__ is the first component of the qualified scope name", mod_ok and not other,
-                  f"__name__ is folded from {[norm(d.value) for d, _ in vals]}: expected get_scope_name(node).split('.')[0]", None, wh)
-        chk.judge("R13.b", "compile_pass:handle_name:'__main__' only for the main scope", main_ok,
-                  "'__main__' is not assigned exactly under the guard that the module name is empty: a library's 'if __name__ == \"__main__\"' block would run", None, wh)
+        val = _subst(c.args[0], env)
+        r_main, r_lib = ev(val, True), ev(val, False)
+        if r_main is None or r_lib is None:
+            if state_attribute(val, c):
+                continue
+            raise AnalysisError(f"handle_name: value folded for __name__ not understood: {norm(val)[:100]}")
+        chk.judge("R13.b", "compile_pass:handle_name:__name__ is the first component of the qualified scope name", r_lib == {"MOD"},
+                  f"inside a library module __name__ can fold to {sorted(map(repr, r_lib - {'MOD'}))} (from {norm(val)[:80]}): expected the module's own name, the first component of get_scope_name(node)", None, wh)
+        chk.judge("R13.b", "compile_pass:handle_name:'__main__' only for the main scope", r_main == {"__main__"} and "__main__" not in r_lib,
+                  f"__name__ folds to {sorted(map(repr, r_main))} in the main file and {sorted(map(repr, r_lib))} in a library: a library's 'if __name__ == \"__main__\"' block must not run, the main file's must", None, wh)
     if not found:
-        chk.bad("R13.b", "compile_pass:handle_name:__name__ is folded", "no constant is set for the name __name__ any more", None, wh)
+        raise AnalysisError("handle_name: no constant is set under a test for the name __name__")
     ib = u.func("is_builtin_name")
     chk.saw("utils", "is_builtin_name")
     rets = [r for r in ast.walk(ib) if isinstance(r, ast.Return) and r.value is not None]
